@@ -28,7 +28,7 @@ def outcome(f, dumper):
 
 def annotate(rng, p, mode):
     keys = ['id', 'title', 'description']
-    vals = {'id': lambda: f'p{rng.randrange(1000)}', 'title': lambda: '"' + rng.choice(['t', 'some title', 'a: b # c', '']) + '"',
+    vals = {'id': lambda: (f'p{rng.randrange(1000)}' if rng.random() < 0.5 else rng.choice(['p1', 'p2', 'same'])), 'title': lambda: '"' + rng.choice(['t', 'some title', 'a: b # c', '']) + '"',
             'description': lambda: '"' + rng.choice(['d', 'globally: no a', '# id: x']) + '"'}
     chosen = rng.sample(keys, rng.randrange(0, 4))
     meta = [(k, vals[k]()) for k in chosen]
